@@ -53,7 +53,7 @@ CLAIMED.update({
    note=TB + "partial: the wall-clock bound rests on two runtime facts (timely ticks, fair select) that no contract can express.",
    technique='contract-based deductive verification with ghost event hooks on channel/clock operations and heap-ownership hooks; loop invariants; z3/cvc5'),
  "C11": dict(category="proof",
-   text="Ghost input boundaries gB/gBprev (positions in the flattened input where the last two input slices end) are set by the receive event; the send hook requires that every output slice ends at one of them and that a big (>= JoinSize) input slice starts its own output; with C03's content clause this is contiguity of every input slice inside one output slice. Empty inputs produce no send event.",
+   text="Ghost input boundaries gB/gBprev (positions in the flattened input where the last two input slices end) are set by the receive event; the send hook requires that every output slice ends at one of them and that a big (>= JoinSize) input slice starts its own output; with C03's content clause this is contiguity of every input slice inside one output slice. Empty inputs produce no send event. The arrays of the received input slices are recorded (gInArr) and every heap write of the discipline carries the obligation that it does not go into one of them: the accumulation buffer is the discipline's own memory, a queued input slice cannot be overwritten (assumed of the producer: an input slice does not alias the discipline's buffer).",
    design_ref="DESIGN.md §7 C11",
    note=TB + "Go channel semantics.",
    technique='contract-based deductive verification with ghost event hooks on channel/clock operations and heap-ownership hooks; loop invariants; z3/cvc5'),
@@ -104,7 +104,7 @@ CLAIMED.update({
 
 CLAIMED.update({
  "C20": dict(category="proof",
-   text="The ownership discipline that excludes data races on library state for every interleaving, as obligations over the typed AST of all eight disciplines (v2 limit, join, unite, priority, simple; v1 join, priority, Simple): every struct field is classified confined or shared; a confined field may be accessed only by functions reachable from the goroutine entry (and by the constructor before its go statement) and by no function reachable from an API method; a shared field is never written after the go statement (channel operations and breaker calls are not writes). Together with C08's heap-write ownership obligations for delivered slices, every memory location the library touches is either owned by exactly one goroutine or immutable while shared, and hand-overs happen over channels (happens-before).",
+   text="The ownership discipline that excludes data races on library state for every interleaving, as obligations over the typed AST of all eight disciplines (v2 limit, join, unite, priority, simple; v1 join, priority, Simple): every struct field is classified confined or shared; a confined field may be accessed only by functions reachable from the goroutine entry (and by the constructor before its go statement) and by no function reachable from an API method; a shared field is never written after the go statement (channel operations and breaker calls are not writes). Together with C08's heap-write ownership obligations for delivered slices, every memory location the library touches is either owned by exactly one goroutine or immutable while shared, and hand-overs happen over channels (happens-before). A field the contract block does not name (added later) must satisfy one of the two disciplines at all of its accesses; hooked channel operations and watched calls made by goroutines without contract (named or function literals) are ownership obligations that fail by construction.",
    design_ref="DESIGN.md §3, §7 C20",
    note=TB + "the Go memory model (channel hand-off, sync.WaitGroup, context, breaker) is trusted; races in user code that violates the documented protocol are out of scope; this is a frame/ownership check decided syntactically on go/types, no solver involved.",
    technique="contract-based ownership/frame conditions (confined vs shared fields declared in the contract files) checked against the typed AST and call graph"),
